@@ -64,9 +64,25 @@ def main(argv):
                            if os.path.exists(os.path.join(p, "patch.diff")))
     # a change to what the Coq instances are generated from (gen_instances.py reads server_tap.py, database.py and
     # db-schemas/) rebuilds the development in place: such a seed runs alone, after the others
+    def gen_hash(src):
+        r = run("/venv/bin/python %s --hash" % os.path.join(HERE, "gen_instances.py"),
+                env=dict(os.environ, VERIF_REPO_SRC=src, PYTHONPATH=src))
+        return r.stdout.decode().strip().split("\n")[-1]
+    base_hash = gen_hash("/repo/src")
     def regenerates(name):
-        p = open(os.path.join(VERIF, "seeded", name, "patch.diff")).read()
-        return any(("+++ b/src/wormhole_mailbox_server/" + f) in p for f in ("server_tap.py", "database.py", "db-schemas/"))
+        """does the seeded change alter what gen_instances.py generates (constants, schema scripts, write statements)?"""
+        wt = "/tmp/sw-pre-%s" % name
+        run("git -C /repo worktree remove --force %s" % wt)
+        shutil.rmtree(wt, ignore_errors=True)
+        if run("git -C /repo worktree add -q --detach %s HEAD" % wt).returncode:
+            return True
+        try:
+            if run("git -C %s apply %s" % (wt, os.path.join(VERIF, "seeded", name, "patch.diff"))).returncode:
+                return True
+            return gen_hash(wt + "/src") != base_hash
+        finally:
+            run("git -C /repo worktree remove --force %s" % wt)
+            shutil.rmtree(wt, ignore_errors=True)
     alone = [n for n in names if regenerates(n)]
     names = [n for n in names if n not in alone]
     with ThreadPoolExecutor(jobs) as ex:
